@@ -157,20 +157,16 @@ func (st *StateTable) Get(SrcIP, DestIP net.IP, SrcPort, DestPort uint16) *State
 			continue
 		}
 
-		if state.SrcPort != SrcPort && state.DestPort != SrcPort {
-			continue
-		}
-
-		if state.DestPort != DestPort && state.SrcPort != DestPort {
+		// states are created from, and looked up for, frames travelling
+		// from the peer to us: match the 4-tuple in that direction only
+		// (matching either direction confused a connection with its
+		// mirror image, e.g. peer:8081>5000 with peer:5000>8081)
+		if state.SrcPort != SrcPort || state.DestPort != DestPort {
 			continue
 		}
 
 		// comparing ipv6 with ipv4 now
-		if !state.SrcIP.Equal(SrcIP) && !state.DestIP.Equal(SrcIP) {
-			continue
-		}
-
-		if !state.DestIP.Equal(DestIP) && !state.SrcIP.Equal(DestIP) {
+		if !state.SrcIP.Equal(SrcIP) || !state.DestIP.Equal(DestIP) {
 			continue
 		}
 
